@@ -553,6 +553,33 @@ ben('b-rename-verify-nonmembership', VERIFIERS, [(base, 'verify_nonmembership::<
 ben('b-rename-determine-node', ['C11', 'C13', 'C02'], [(tn, 'determine_node_to_get', 'select_node_as_of', 0), (azks, 'determine_node_to_get', 'select_node_as_of', 0)],
     'selector function renamed (all uses)')
 
+# ---------------------------------------------------------------- larger extractions in server code (known limits are documented in DESIGN §2.8)
+ben('b-dir-helper-duplicates', ['C01', 'C10', 'C12'], [(dirf,
+    '''        // Check for duplicate labels and return an error if any are encountered
+        let distinct_set: HashSet<AkdLabel> =
+            updates.iter().map(|(label, _)| label.clone()).collect();
+        if distinct_set.len() != updates.len() {
+            return Err(AkdError::Directory(DirectoryError::Publish(
+                "Cannot publish with a set of entries that contain duplicate labels".to_string(),
+            )));
+        }
+''',
+    '''        // Check for duplicate labels and return an error if any are encountered
+        ensure_distinct_labels(&updates)?;
+'''), (dirf,
+    '''// Manual implementation of Clone, see: https://github.com/rust-lang/rust/issues/41481''',
+    '''fn ensure_distinct_labels(updates: &[(AkdLabel, AkdValue)]) -> Result<(), AkdError> {
+    let distinct_set: HashSet<AkdLabel> = updates.iter().map(|(label, _)| label.clone()).collect();
+    if distinct_set.len() != updates.len() {
+        return Err(AkdError::Directory(DirectoryError::Publish(
+            "Cannot publish with a set of entries that contain duplicate labels".to_string(),
+        )));
+    }
+    Ok(())
+}
+
+// Manual implementation of Clone, see: https://github.com/rust-lang/rust/issues/41481''')], 'duplicate-label guard moved into a sync helper')
+
 out = os.path.join(os.path.dirname(os.path.abspath(__file__)), 'benign.json')
 json.dump({'benign': B}, open(out, 'w'), indent=1)
 print('%d benign variants -> %s' % (len(B), out))
